@@ -442,6 +442,33 @@ def run(F, rep, tier):
         else:
             rep.ok('R4.8', 'apply_section (idiom not recognised)', 'no order-disturbing consumer; slot values come from %s' % sorted(srcs))
             rep.note('R4.8: apply_section fills slots through %s, not one of the recognised front consumers: order not decided' % sorted(srcs))
+    # ---------------- R4.9
+    rep.rule('R4.9', 'every operator can be op-assigned: when a run of operator characters ends in `=`, the lexer treats it as a comparison token '
+             'only if the WHOLE run before the `=` is one of ! < > = (giving != <= >= ==); any other run is the operator followed by the assignment '
+             'token, so `x <<= 3`, `xs !!= 1`, `f >>>= g` are op-assignments like `x += 1` (table read off the HIR patterns of the lexer)')
+    found9 = None
+    for fn9, ms9 in F.matches.items():
+        if not fn9.startswith('lex::'):
+            continue
+        for m9 in ms9:
+            if m9['kind'] != 'Normal':
+                continue
+            pats9 = [pat_str(a['pat']) for a in m9['arms']]
+            if any(re.search(r'char:=\)?$', p_) or ', char:=' in p_ for p_ in pats9) and ('str' in m9['scrut_ty'] or 'char' in m9['scrut_ty']) and any('char:=' in p_ for p_ in pats9) and len(pats9) >= 3 and 'Option<&char>' not in m9['scrut_ty']:
+                found9 = (fn9, m9, pats9)
+    if not found9:
+        rep.note('R4.9: the lexer decides comparison-vs-op-assign without a match on (operator run, last char) (idiom not recognised): not decided')
+        rep.ok('R4.9', 'lexer op-assign split (idiom not recognised)', 'not decided')
+    else:
+        fn9, m9, pats9 = found9
+        whole = set()
+        for p_ in pats9:
+            if 'char:=' in p_:
+                whole |= set(re.findall(r'str:([^ |,)]*)', p_))
+        if '&str' in m9['scrut_ty'] and whole >= {'!', '<', '>', '='} and whole <= {'!', '<', '>', '=', ''}:
+            rep.ok('R4.9', 'lexer op-assign split', 'comparison only for the whole runs %s; empty run = plain assignment; everything else splits off `=`' % sorted(whole - {''}))
+        else:
+            rep.viol('R4.9', 'lex|opassign-split', 'the lexer no longer decides "comparison or operator followed by =" on the whole operator run (scrutinee %s, whole-run literals %s): multi-character operators starting with ! < > = lose their op-assign form (`x <<= 3` becomes a lookup of `<<=`)' % (m9['scrut_ty'], sorted(whole)), F.loc(m9['sp']))
     rep.undecided += ['extensional equality of each builtin across forms when its body is wrong', 'user-defined closures (one path: Closure::run)']
     return META
 
